@@ -361,6 +361,12 @@ class OpGen:
                     inner = " ".join(self.field(ot, f, depth) for f in fs)
                 sels.append("... on %s%s%s { %s }" % (ot.name, self.fragment_directive(), self.tag() if self.custom_dir else "", inner))
                 self.feats.add("frag.inline.on_object")
+            if "frag.inline.on_same_abstract" in self.dirty and rng.random() < 0.6:
+                # `... on Node { id }` inside a Node-typed selection (or `... on SearchResult { __typename }` inside the union's): the type condition is the position's own abstract type
+                fs = self.object_fields(t, 0) if isinstance(t, GraphQLInterfaceType) else []
+                inner = " ".join(self.field(t, f, 0, force_alias=rng.random() < 0.5) for f in fs) if fs else "__typename"
+                sels.insert(rng.randrange(0, len(sels) + 1), "... on %s%s { %s }" % (t.name, self.fragment_directive(), inner))
+                self.feats.add("frag.inline.on_same_abstract")
             if other_iface is not None:
                 it = other_iface
                 fs = self.object_fields(it, 0)
